@@ -305,3 +305,8 @@ def run(prog: Program, res: Result) -> None:  # noqa: PLR0912, PLR0915
             d = diffs[0]
             res.fail("C11.R5", file=fa.file, line=d.async_line or fa.node.lineno, qualname=fa.qualname, construct=f"sync `{d.sync_text}` vs async `{d.async_text}`", message=f"async analysis differs from {fs.qualname}", what=what)
 
+    # ------------------------------------------------------------------ R7 spans of variables are the path tokens' spans
+    res.rule("C11.R7", "a reported variable location is its path token's span, so the lexer must keep that span exact: stop updated after every segment, a nested variable ends before its closing bracket, unbalanced brackets rejected (shared with C17.R6)")
+    from checks.C17 import check_path_tokens
+
+    check_path_tokens(prog, res, "C11.R7")
